@@ -166,11 +166,11 @@ func NewRun(prop, tier, level string) *Run {
 	return r
 }
 
-func (r *Run) Rule(s string)        { r.rule = s }
-func (r *Run) Assume(s ...string)   { r.assume = append(r.assume, s...) }
-func (r *Run) Exhaustive(b bool)    { r.exhaust = &b }
-func (r *Run) MaxSamples(n int)     { r.maxSample = n }
-func (r *Run) Set(k string, v any)  { r.mu.Lock(); r.extra[k] = v; r.mu.Unlock() }
+func (r *Run) Rule(s string)       { r.rule = s }
+func (r *Run) Assume(s ...string)  { r.assume = append(r.assume, s...) }
+func (r *Run) Exhaustive(b bool)   { r.exhaust = &b }
+func (r *Run) MaxSamples(n int)    { r.maxSample = n }
+func (r *Run) Set(k string, v any) { r.mu.Lock(); r.extra[k] = v; r.mu.Unlock() }
 func (r *Run) Count(k string, n int64) {
 	r.mu.Lock()
 	r.counters[k] += n
@@ -259,6 +259,9 @@ func (r *Run) Finish() int {
 	maxPrint := 25
 	for i := range r.viol {
 		v := &r.viol[i]
+		if i >= 60 {
+			break // bundles for the first 60 distinct witnesses only
+		}
 		dir := filepath.Join(root, "replays", r.Prop, sanitize(v.Sig))
 		os.MkdirAll(dir, 0o755)
 		meta := map[string]any{"property": r.Prop, "sig": v.Sig, "what": v.What, "seed": r.SeedV, "tier": r.Tier}
@@ -349,7 +352,10 @@ func sanitize(s string) string {
 	}
 	out := b.String()
 	if len(out) > 80 {
-		out = out[:60] + "_" + Hash(s)
+		out = out[:60]
+	}
+	if out != s {
+		out += "_" + Hash(s)
 	}
 	if out == "" {
 		out = "w"
@@ -396,9 +402,9 @@ func (r *Rand) Intn(n int) int {
 	return int(r.U64() % uint64(n))
 }
 
-func (r *Rand) Bool() bool          { return r.U64()&1 == 1 }
+func (r *Rand) Bool() bool            { return r.U64()&1 == 1 }
 func (r *Rand) Chance(p float64) bool { return float64(r.U64()>>11)/float64(1<<53) < p }
-func (r *Rand) Range(lo, hi int) int { return lo + r.Intn(hi-lo+1) }
+func (r *Rand) Range(lo, hi int) int  { return lo + r.Intn(hi-lo+1) }
 
 func Pick[T any](r *Rand, xs []T) T { return xs[r.Intn(len(xs))] }
 
